@@ -316,7 +316,7 @@ impl Prop for C07 {
                 for _ in 0..drng.below(2) {
                     keys.push(decoy(&mut drng));
                 }
-                let rcfg = ReadCfg { keys, sched: Sched::Full, budget: u64::MAX / 2, error_at_read: None, spill_path: None, explicit_auth_mode: false };
+                let rcfg = ReadCfg { keys, sched: Sched::Full, budget: u64::MAX / 2, error_at_read: None, spill_path: None, explicit_auth_mode: false, replay: None };
                 let vs = check_readback(s, &img, &rcfg, &model, 8192, ctx, "recipient");
                 for mut x in vs {
                     x.class = format!("{}|position={pos}", x.class);
@@ -328,7 +328,7 @@ impl Prop for C07 {
         for nkeys in 0..3usize {
             ctx.eval();
             let keys: Vec<String> = (0..nkeys).map(|_| decoy(&mut drng)).collect();
-            let rcfg = ReadCfg { keys, sched: Sched::Full, budget: u64::MAX / 2, error_at_read: None, spill_path: None, explicit_auth_mode: false };
+            let rcfg = ReadCfg { keys, sched: Sched::Full, budget: u64::MAX / 2, error_at_read: None, spill_path: None, explicit_auth_mode: false, replay: None };
             let out = s.read(img.clone(), &rcfg, &[ROp::List]);
             if out.panic.is_none() && out.open.is_ok() {
                 v.push(Violation::new("opened-without-recipient-key", format!("keys={nkeys}"), format!("the archive opened with {nkeys} key(s) none of which belongs to a recipient: {:?}", out.results.first().map(|r| format!("{r:?}").chars().take(80).collect::<String>()))));
